@@ -9,6 +9,9 @@ mod c04;
 mod c05;
 mod c06;
 mod c07;
+mod c08;
+mod c09;
+mod c16;
 mod c18;
 
 use common::ev::{Ctx, Report, Tier};
@@ -28,6 +31,9 @@ fn table() -> Vec<(&'static str, RunFn, ReplayFn)> {
         ("C05", c05::run as RunFn, c05::replay as ReplayFn),
         ("C06", c06::run as RunFn, c06::replay as ReplayFn),
         ("C07", c07::run as RunFn, c07::replay as ReplayFn),
+        ("C08", c08::run as RunFn, c08::replay as ReplayFn),
+        ("C09", c09::run as RunFn, c09::replay as ReplayFn),
+        ("C16", c16::run as RunFn, c16::replay as ReplayFn),
         ("C18", c18::run as RunFn, c18::replay as ReplayFn),
     ]
 }
